@@ -22,7 +22,28 @@ fn variant(d: &mut Dec, base: &[ModeSpec], p: &GenParams) -> (Vec<ModeSpec>, &'s
     let np = v[mi].pats.len();
     let pi = d.below(np);
     for _attempt in 0..4 {
-        match d.below(11) {
+        match d.below(12) {
+            11 => {
+                // a configuration that collides with the base under FxHasher (the hasher of the
+                // cache map, rustc-hash 2.1: h = (h + word) * K per integer word): the last
+                // transition (t, m) of a mode becomes (t + K^-1, m - 1), which leaves the hash of
+                // everything hashed after it unchanged. A cache that keeps the 64-bit hash instead
+                // of the configuration hands out the base's compilation for it.
+                const K_INV: usize = 0x7814_94a5_5daa_ed0d;
+                for m in v.iter_mut() {
+                    let n = m.transitions.len();
+                    if n == 0 {
+                        continue;
+                    }
+                    let (t, target) = m.transitions[n - 1];
+                    if target >= 1 {
+                        if let Some(t2) = t.checked_add(K_INV) {
+                            m.transitions[n - 1] = (t2, target - 1);
+                            return (v, "fx_hash_collision_transition");
+                        }
+                    }
+                }
+            }
             9 => {
                 // one more mode behind the others (a copy of an existing one under a new name): the
                 // base is a strict prefix of this list of modes
@@ -477,7 +498,7 @@ impl Check for C13 {
         "C13"
     }
     fn rule(&self) -> &'static str {
-        "case = sequence of 3-10 builds drawn with repetition from a pool made of a base configuration, 2-4 near-identical variants (one token type changed, two patterns swapped, lookahead added / removed / polarity flipped / pattern changed, transition added / retargeted, mode renamed, one pattern changed, one mode appended, last mode dropped), an unrelated configuration and failing configurations (syntax error or unsupported construct in first / last pattern or lookahead of any mode, or in one more mode appended to the base); mode names carry a per-execution nonce so that executions never meet each other's cache entries; oracle = every build() versus build_uncached() of the same modes: same Ok/Err, equal mode_name, equal token streams on probe inputs sampled from the languages of ALL pool members, and equivalent automata (identical dumps with class predicates compared on a probe set of ~600 characters, or - when dumps differ, and always for the last build of every fourth case - exact language equivalence per mode and lookahead over the alphabet atoms); a quarter of the cases instead drive the simple builder add_patterns(..).build() with pattern lists that are prefixes / extensions of each other, one pattern changed, two swapped, empty, failing (a nonce pattern stands first), compared with the same patterns built without the cache; fixed sweep cases build 70 ... 1 100 (thorough: 9 000) distinct configurations, hit a few early ones, build two more and re-build all of them twice, each time compared with the uncached scanner; non-trivial = a variant is built after its sibling was cached, or a valid build follows a failing one"
+        "case = sequence of 3-10 builds drawn with repetition from a pool made of a base configuration, 2-4 near-identical variants (one token type changed, two patterns swapped, lookahead added / removed / polarity flipped / pattern changed, transition added / retargeted, mode renamed, one pattern changed, one mode appended, last mode dropped, a transition changed so that the configuration collides with the base under the cache map's hasher), an unrelated configuration and failing configurations (syntax error or unsupported construct in first / last pattern or lookahead of any mode, or in one more mode appended to the base); mode names carry a per-execution nonce so that executions never meet each other's cache entries; oracle = every build() versus build_uncached() of the same modes: same Ok/Err, equal mode_name, equal token streams on probe inputs sampled from the languages of ALL pool members, and equivalent automata (identical dumps with class predicates compared on a probe set of ~600 characters, or - when dumps differ, and always for the last build of every fourth case - exact language equivalence per mode and lookahead over the alphabet atoms); a quarter of the cases instead drive the simple builder add_patterns(..).build() with pattern lists that are prefixes / extensions of each other, one pattern changed, two swapped, empty, failing (a nonce pattern stands first), compared with the same patterns built without the cache; fixed sweep cases build 70 ... 1 100 (thorough: 9 000) distinct configurations, hit a few early ones, build two more and re-build all of them twice, each time compared with the uncached scanner; non-trivial = a variant is built after its sibling was cached, or a valid build follows a failing one"
     }
     fn nondeterministic(&self) -> bool {
         // "whatever was built before" includes the builds of the other cases of this process (the
